@@ -188,7 +188,7 @@ def explore(mod, cnd, pins, budget, out):
                         key = str(ret)[:80]
                         seen_reasons[key] = seen_reasons.get(key, 0) + 1
                         if seen_reasons[key] <= 3 and len(res['cex']) < MAX_CEX:
-                            res['cex'].append({'args': jsonable(full), 'reason': str(ret)})
+                            res['cex'].append({'args': jsonable(full), 'reason': str(ret), 'notes': jsonable(api.path_notes())})
                     elif len(res['samples']) < 6 and (r_reached or res['paths'] > 50):
                         res['samples'].append({'args': jsonable(full), 'reached': r_reached,
                                                'notes': jsonable(api.path_notes())})
@@ -260,6 +260,7 @@ def explore(mod, cnd, pins, budget, out):
 
 def main(argv):
     modname, cname, pins_json, budget, out = argv[:5]
+    sys.setrecursionlimit(20000)
     prelude.install()
     mod = importlib.import_module(modname)
     cnd = {c.name: c for c in api.conditions_of(mod)}[cname]
